@@ -56,6 +56,24 @@ class _Canon(ast.NodeTransformer):
             node.keywords = [k for k in node.keywords if k.arg != "dtype"]
         return node
 
+    def visit_JoinedStr(self, node):
+        self.generic_visit(node)
+        # f"{a}{b}/" == a + b + "/" for string pieces (no conversion, no format spec)
+        parts = []
+        for v in node.values:
+            if isinstance(v, ast.Constant):
+                parts.append(v)
+            elif isinstance(v, ast.FormattedValue) and v.conversion == -1 and v.format_spec is None:
+                parts.append(v.value)
+            else:
+                return node
+        if len(parts) < 2:
+            return node
+        out = parts[0]
+        for p_ in parts[1:]:
+            out = ast.BinOp(out, ast.Add(), p_)
+        return out
+
     def visit_Compare(self, node):
         self.generic_visit(node)
         # b > a  ->  a < b ;  b >= a  ->  a <= b   (one normal form per ordering test)
